@@ -401,6 +401,9 @@ pub struct XmlAttribute {
     prefix: Option<String>,
     values: Singleton<Vec<XmlAttributeValue>>,
     from_dtd: bool,
+    /// Declared type of an attribute that was supplied by an attribute-list declaration
+    /// (such a node has no owner element to ask).
+    declared_type: Option<XmlDeclarationAttType>,
     parent_id: Option<usize>,
     context: Context,
 }
@@ -694,6 +697,7 @@ impl XmlAttribute {
             prefix,
             values: singleton(vec![]),
             from_dtd: false,
+            declared_type: None,
             parent_id,
             context: context.next(),
         });
@@ -716,6 +720,7 @@ impl XmlAttribute {
             prefix: value.prefix().map(|v| v.to_string()),
             values: singleton(vec![]),
             from_dtd: true,
+            declared_type: Some(value.ty.clone()),
             parent_id: None,
             context: context.zero(),
         });
@@ -788,6 +793,10 @@ impl XmlAttribute {
     }
 
     fn declaration_type(&self) -> Option<XmlDeclarationAttType> {
+        if self.declared_type.is_some() {
+            return self.declared_type.clone();
+        }
+
         Some(self.declaration_def()?.ty)
     }
 
